@@ -12,7 +12,8 @@ MODELS = ["cryptography: ideal model tlv/stubs/cryptography (UF hashes/HMAC/HKDF
           "key log: keylog_reader.Key objects with symbolic hex fields (parsing of the text is C09's subject)"]
 ASSUMPTIONS = ["distinct AEAD encryptions give distinct ciphertexts; a ciphertext decrypts only under the key, nonce and AAD it was made with",
                "MAC bytes are opaque (TLExport strips but never verifies them)",
-               "one TLS record per TCP segment (segmentation is C05's subject)",
+               "one TLS record per TCP segment except in the -segmented configurations (every record cut into 11-byte segments); arbitrary "
+               "segmentation, duplication and reordering are C05's subject",
                "not claimed: compression, renegotiation, KeyUpdate/0-RTT/HRR, data after an alert, 4-tuple reuse"]
 
 SHAPES_LEGACY = [
@@ -20,6 +21,7 @@ SHAPES_LEGACY = [
     {"shape": "full-one-record", "grouping": "one", "sid_len": 32},
     {"shape": "full-two-records", "grouping": "two", "sid_len": 1, "extra_ext": True},
     {"shape": "abbreviated", "abbreviated": True, "sid_len": 32},
+    {"shape": "full-session-ticket", "grouping": "separate", "session_ticket": True},
 ]
 SHAPES_13 = [
     {"shape": "separate", "grouping": "separate"},
@@ -66,6 +68,10 @@ def configs(tier, seed):
             sh_list = shapes if (tier == "thorough" or True) else [rnd.choice(shapes)]
             if tier == "quick" and v != "TLS13":
                 sh_list = [shapes[0], rnd.choice(shapes[1:])]
+                # cipher state that a spurious decryption would disturb (key stream position, CBC residue, nonce counter): always with
+                # the clear-text NewSessionTicket between the client's Finished and the server's ChangeCipherSpec
+                if (cls[1] in ("RC4", "CHACHA20") or (v in ("SSL30", "TLS10") and cls[2] == "CBC" and cls[1] == "AES")) and SHAPES_LEGACY[4] not in sh_list:
+                    sh_list.append(SHAPES_LEGACY[4])
             for sh in sh_list:
                 base = {"harness": "pipeline", "version": v, "suite": code, "suite_name": name, "ipv": rnd.choice([4, 6]),
                         "records": 2 if tier == "quick" else 3, "max_len": 1 if tier == "quick" else 2, **sh}
@@ -79,6 +85,18 @@ def configs(tier, seed):
                     c.update(var)
                     c["name"] = "%s-%04x-%s%s%s" % (v, code, sh["shape"], "-etm" if var.get("etm") else "", "-rsa" if var.get("keylog_label") else "")
                     out.append(c)
+    # ---- application records spread over several TCP segments (lengths that do not divide by the number of segments)
+    seen = set()
+    for c in list(out):
+        k = (c["version"], c["suite_name"].split("_WITH_")[-1].rsplit("_", 1)[0].split("_")[0])
+        if c.get("shape") not in ("full-separate", "separate") or c.get("etm") or c.get("keylog_label") or k in seen:
+            continue
+        if tier == "quick" and c["version"] in ("SSL30", "TLS11"):
+            continue
+        seen.add(k)
+        cc = dict(c)
+        cc.update(name=c["name"] + "-segmented", seg_size=11, records=2, min_len=1, max_len=3)
+        out.append(cc)
     # ---- one record from an arbitrary cipher state, one configuration per behaviour class
     for cls, members in sorted(by_class.items()):
         code, name = members[0] if tier == "quick" else rnd.choice(members)
@@ -107,7 +125,7 @@ def scenario_outputs(cfg, mods, src):
     from tlv.oracle import scenario as SC
     items, keylog, meta = SC.build(cfg, src)
     ep = P.Endpoint(ipv=cfg.get("ipv", 4))
-    frames = P.tcp_frames(ep, items)
+    frames = P.tcp_frames(ep, items, seg_size=cfg.get("seg_size"))
     out, sessions = P.run_tls(mods, frames, P.keylog_objects(mods, keylog), exp_meta=cfg.get("exp_meta", False))
     return items, out, ep, sessions
 
@@ -250,7 +268,7 @@ def concrete(cfg, inp, args=()):
     src = SC.ConcreteSrc(inp)
     items, keylog, meta = SC.build(cfg, src)
     ep = P.Endpoint(ipv=cfg.get("ipv", 4))
-    pk = e2e.concrete_frames(ep, items)
+    pk = e2e.concrete_frames(ep, items, seg_size=cfg.get("seg_size"))
     res = e2e.run_tlexport(pk, e2e.keylog_text(keylog), args=args)
     problems = list(res["problems"])
     conv, convs = e2e.streams_of(res, ep)
